@@ -1,4 +1,5 @@
-//! UistBroker over the real TestClient and over eager / lazy client wrappers: generator and interpreter
+//! UistBroker over the real TestClient, over eager / lazy / suspending client wrappers, and over the repository's
+//! reqwest `Client` talking to a real `HttpServer` on 127.0.0.1: generator and interpreter
 use crate::common::*;
 use crate::uist;
 use alator::broker::uist::{UistBroker, UistBrokerBuilder};
@@ -104,6 +105,83 @@ impl UistClient for Wrap {
             Ok(NowResponse { now: b.date, has_next: d.has_next(b.pos) })
         })
     }
+}
+
+/// the repository's HTTP client against a real server on the loopback interface; the server's state is shared
+/// with the harness so that the exchange behind the transport can be observed like behind the other clients
+pub struct HttpC {
+    inner: rotala::http::uist::uistv1_client::Client,
+    data: actix_web::web::Data<std::sync::Mutex<AppState>>,
+}
+impl StateView for HttpC {
+    fn view<R>(&self, f: impl FnOnce(&AppState) -> R) -> R {
+        f(&self.data.lock().unwrap_or_else(|e| e.into_inner()))
+    }
+}
+impl UistClient for HttpC {
+    fn tick(&mut self, id: BacktestId) -> impl Future<Output = Result<TickResponse>> {
+        self.inner.tick(id)
+    }
+    fn delete_order(&mut self, oid: OrderId, id: BacktestId) -> impl Future<Output = Result<()>> {
+        self.inner.delete_order(oid, id)
+    }
+    fn insert_order(&mut self, o: Order, id: BacktestId) -> impl Future<Output = Result<()>> {
+        self.inner.insert_order(o, id)
+    }
+    fn fetch_quotes(&mut self, id: BacktestId) -> impl Future<Output = Result<FetchQuotesResponse>> {
+        self.inner.fetch_quotes(id)
+    }
+    fn init(&mut self, n: String) -> impl Future<Output = Result<InitResponse>> {
+        self.inner.init(n)
+    }
+    fn info(&mut self, id: BacktestId) -> impl Future<Output = Result<InfoResponse>> {
+        self.inner.info(id)
+    }
+    fn now(&mut self, id: BacktestId) -> impl Future<Output = Result<NowResponse>> {
+        self.inner.now(id)
+    }
+}
+
+struct Tcp {
+    addr: std::net::SocketAddr,
+    data: actix_web::web::Data<std::sync::Mutex<AppState>>,
+    _rt: tokio::runtime::Runtime,
+}
+/// one server for the whole run (its state is replaced at the start of every `http` case), in its own thread, and a
+/// multi-threaded tokio runtime whose workers drive the client's sockets while the broker blocks on its futures
+fn tcp() -> Option<&'static Tcp> {
+    static T: std::sync::OnceLock<Option<Tcp>> = std::sync::OnceLock::new();
+    T.get_or_init(|| {
+        if std::env::var("VERIF_NO_TCP").is_ok() {
+            return None;
+        }
+        let data = actix_web::web::Data::new(std::sync::Mutex::new(AppState::create(&mut HashMap::new())));
+        let d = data.clone();
+        let (tx, rx) = std::sync::mpsc::channel();
+        std::thread::spawn(move || {
+            use rotala::http::uist::uistv1_server::*;
+            let sys = actix_web::rt::System::new();
+            let srv = actix_web::HttpServer::new(move || {
+                actix_web::App::new().app_data(d.clone()).service(info).service(init).service(fetch_quotes).service(tick).service(insert_order).service(delete_order).service(now)
+            })
+            .workers(1)
+            .disable_signals()
+            .bind(("127.0.0.1", 0));
+            match srv {
+                Ok(s) => {
+                    let _ = tx.send(Some(s.addrs()[0]));
+                    let _ = sys.block_on(s.run());
+                }
+                Err(_) => {
+                    let _ = tx.send(None);
+                }
+            }
+        });
+        let addr = rx.recv_timeout(std::time::Duration::from_secs(10)).ok().flatten()?;
+        let rt = tokio::runtime::Builder::new_multi_thread().worker_threads(2).enable_all().build().ok()?;
+        Some(Tcp { addr, data, _rt: rt })
+    })
+    .as_ref()
 }
 
 pub fn cash_ev(e: &BrokerCashEvent) -> String {
@@ -226,7 +304,10 @@ pub fn gen(seed: u64, cases: usize, flavour: &str, path: &str) {
     for _ in 0..cases {
         g.line("RESET");
         g.stats.bump("cases");
-        let client = *g.rng.pick(&["test", "test", "eager", "lazy", "slow"]);
+        // the reqwest client over a real socket only on the whole-share dyadic grid: serde_json (without its
+        // `float_roundtrip` feature) may move a long binary64 literal by one ulp, which C20 allows (1e-12) but which
+        // makes bit-level decisions (cash == cost) differ from the in-process run; short decimals travel exactly
+        let client = if whole && g.rng.chance(1, 6) { "http" } else { *g.rng.pick(&["test", "test", "eager", "lazy", "slow"]) };
         g.line(&format!("CLIENT {client}"));
         g.stats.bump(&format!("client_{client}"));
         let nc = g.rng.below(4);
@@ -534,7 +615,24 @@ pub fn run(ops: &str, annot: &str, imp: &str) {
             continue;
         }
         let body = &lines[i..j];
+        let client = if client == "http" && tcp().is_none() {
+            out.stats.bump("tcp_unavailable_http_case_run_over_testclient");
+            "test".to_string()
+        } else {
+            client
+        };
         match client.as_str() {
+            "http" => {
+                let t = tcp().unwrap();
+                let _guard = t._rt.enter();
+                t.data.clear_poison();
+                *t.data.lock().unwrap_or_else(|e| e.into_inner()) = AppState::single("D", src);
+                let mut c = HttpC { inner: rotala::http::uist::uistv1_client::Client::new(format!("http://{}", t.addr)), data: t.data.clone() };
+                let id = block_on(c.init("D".to_string())).unwrap().backtest_id;
+                let mut b = block_on(UistBrokerBuilder::new().with_client(c, id).with_trade_costs(costs).build());
+                out.stats.bump("cases_over_http");
+                run_case(&mut b, id, body, &mut out);
+            }
             "test" => {
                 let mut c = TestClient::single("D", src);
                 let id = block_on(c.init("D".to_string())).unwrap().backtest_id;
